@@ -403,6 +403,12 @@ def _who_reads_flags_only(ch: Checker) -> None:
     for fn in hp.methods.values():
         for a in walk_no_nested(fn.node):
             if isinstance(a, ast.Attribute) and isinstance(a.ctx, ast.Load) and a.attr == 'tls_interception_enabled' and isinstance(a.value, ast.Name) and a.value.id == 'self':
+                if fn.name != '_tls_intercept_enabled' and not _decision_affects_traffic(fn, a):
+                    # the branches it selects between do the same to the connections (only bookkeeping differs, e.g. whether relayed bytes are also shown to the
+                    # response parser, whose failures no longer affect the relay): not a necessary condition of the property at this site
+                    n += 1
+                    ch.ok('C11.8', fn, 'self.tls_interception_enabled @%s (bookkeeping only)' % fn.name, 'selects between branches with identical effects on the connections', line=a.lineno)
+                    continue
                 n += 1
                 ch.check(fn.name == '_tls_intercept_enabled', 'C11.8', fn, 'self.tls_interception_enabled @%s' % fn.name, 'read inside the plugin-aware predicate only',
                          '%s decides on `self.tls_interception_enabled`, which only looks at the configuration: a connection whose plugin opted out of interception (do_intercept() False) '
@@ -414,3 +420,24 @@ def _who_reads_flags_only(ch: Checker) -> None:
             if isinstance(a, ast.Call) and attr_chain(a.func) == 'tls_interception_enabled':
                 n += 1
                 ch.bad('C11.8', fn, a, '%s calls tls_interception_enabled(flags) directly instead of the plugin-aware predicate' % fn.qualname, line=a.lineno)
+
+
+EFFECTS = ('queue', 'intercept', 'wrap', 'wrap_client', 'wrap_server', 'connect', 'connect_upstream', 'close', 'flush', 'send', 'recv', '_close_and_release')
+
+
+def _decision_affects_traffic(fn: FuncInfo, attr_node: ast.AST) -> bool:
+    """does the if-statement whose test reads attr_node select between branches that act differently on the connections?"""
+    for st in walk_no_nested(fn.node):
+        if isinstance(st, ast.If) and any(x is attr_node for x in ast.walk(st.test)):
+            def effects(body: List[ast.stmt]) -> List[str]:
+                out = []
+                for s_ in body:
+                    for c in ast.walk(s_):
+                        if isinstance(c, ast.Call) and isinstance(c.func, ast.Attribute) and c.func.attr in EFFECTS and not norm(c.func.value).startswith(('self.response', 'self.pipeline_response', 'logger')):
+                            out.append(norm(c)[:80])
+                    for r in ast.walk(s_):
+                        if isinstance(r, (ast.Return, ast.Raise, ast.Break, ast.Continue)):
+                            out.append(type(r).__name__ + ':' + (norm(r.value)[:40] if isinstance(r, ast.Return) and r.value is not None else ''))
+                return out
+            return effects(st.body) != effects(st.orelse)
+    return True     # read somewhere else (an assignment, an argument): assume it matters
